@@ -105,6 +105,39 @@ def check_bunched(env, acc):
             acc.nontriv("bunched", vin, be)
 
 
+def check_coarse_threshold(env, acc, thr=0.02):
+    """The documented truncation follows the live setting in BOTH backends: with a coarse threshold each backend keeps
+    exactly the full-mode states whose probability exceeds it (lossless circuits: nothing is folded)."""
+    old = lw.settings.sampler_probability_threshold
+    lw.settings.sampler_probability_threshold = thr
+    try:
+        for rc in emulator_family(env, "quick"):
+            if rc["n"] != 3:
+                continue
+            c, _ = build(rc, env)
+            if c.U_full.shape[0] != c.n_modes:
+                continue
+            for vin in ref_fock.basis(c.input_modes, 2):
+                (ref, fold), n_inj = ref_distribution(c, vin)
+                want = {k: v for k, v in ref.items() if v > thr * 1.0001}
+                edge = {k for k, v in ref.items() if abs(v - thr) <= thr * 1e-4}
+                for be in ("permanent", "slos"):
+                    case = {"scenario": "coarse_threshold", "recipe": rc, "input": vin, "backend": be, "threshold": thr,
+                            "seed": env.seed}
+                    acc.tick("executions"); acc.tick("transitions")
+                    d = {tuple(k.s): float(v) for k, v in emu.Sampler(c, lw.State(list(vin)), backend=be).probability_distribution.items()}
+                    if sum(vin) + sum(c.heralds["input"].values()) == 0:
+                        continue
+                    bad = [k for k in set(d) | set(want) if k not in edge and abs(d.get(k, 0.0) - want.get(k, 0.0)) > 1e-9]
+                    if bad:
+                        acc.violation("probability", case, {"state": bad[0], "impl": d.get(bad[0], 0.0), "ref": want.get(bad[0], 0.0)})
+                    acc.state("coarse", rc["name"], vin, be)
+                    if len(want) < len(ref):
+                        acc.nontriv("coarse", rc["name"], vin, be)
+    finally:
+        lw.settings.sampler_probability_threshold = old
+
+
 def run(tier, seed):
     env = Env(seed)
     fam = emulator_family(env, tier)
@@ -126,7 +159,7 @@ def run(tier, seed):
         return a
 
     acc.merge(kernel.pmap(shard_lay, kernel.interleave(lay, kernel.NPROC * 3)))
-    b = kernel.Acc(); check_bunched(env, b); acc.merge(b)
+    b = kernel.Acc(); check_bunched(env, b); check_coarse_threshold(env, b); acc.merge(b)
     meta = {
         "rule": "(plus 2-mode inputs with 13..26 photons, where occupation factorials exceed 64 bits) every circuit recipe of the emulator family (and every herald layout of <= 2 heralds on 3 modes, 4 in thorough: ordered "
                 "input modes x ordered output modes x photon numbers {0,1,2}; every mode heralded on 2 and 3 modes) x every Fock input on the visible modes up to the photon "
@@ -144,6 +177,9 @@ def run(tier, seed):
 def replay(w, acc):
     case = w["case"]
     env = Env(case.get("seed", 0))
+    if case.get("scenario") == "coarse_threshold":
+        check_coarse_threshold(env, acc, case.get("threshold", 0.02))
+        return
     if case.get("scenario") == "bunched":
         check_bunched(env, acc)
         return
